@@ -379,6 +379,14 @@ class CompiledChemicals(Chemicals):
     def compile(self, skip_checks=False):
         """Do nothing, CompiledChemicals objects are already compiled.""" 
     
+    def _clear_index_caches(self):
+        # Names are about to change: forget every cached key -> index lookup
+        # of these chemicals (in place; indexers hold references to the dicts).
+        self._index_cache.clear()
+        from .indexer import MaterialIndexer
+        for (phases, chemicals), cache in MaterialIndexer._index_caches.items():
+            if chemicals is self: cache.clear()
+
     def define_group(self, name, IDs, composition=None, wt=False):
         """
         Define a group of chemicals.
@@ -478,6 +486,7 @@ class CompiledChemicals(Chemicals):
         in BioSTEAM.
         
         """
+        self._clear_index_caches()
         IDs = tuple(IDs)
         if composition is None:
             composition = np.ones(len(IDs))
@@ -720,6 +729,7 @@ class CompiledChemicals(Chemicals):
         ValueError: alias 'H2O' already in use by Chemical('Water')
         
         """
+        self._clear_index_caches()
         dct = self.__dict__
         chemical = dct[ID]
         if alias in dct and dct[alias] is not chemical:
